@@ -229,7 +229,11 @@ def run_plan(params, writes, fplan, log):
                     viol.append({'property': PROPERTY, 'class': 'livelock', 'signature': 'too-many-open-attempts',
                                  'detail': {'write': i, 'attempts': len(attempts), 'limit': lim_att, 'plan': fplan}})
                     break
-            h.close()
+            try:
+                h.close()
+            except Exception as e:
+                viol.append({'property': PROPERTY, 'class': 'close-raised', 'signature': type(e).__name__,
+                             'detail': {'error': repr(e)[:200], 'plan': fplan}})
     finally:
         hl.gzip, hl.time = saved[0], saved[1]
         if saved[2] is None:
